@@ -88,19 +88,38 @@ Proof.
   intros. cbv [evalR env_of_Q nth gc_expr]. rewrite Q2R_8000, Q2R_2, Q2R_FQ, Q2R_RQ, Q2R_e0Q. reflexivity.
 Qed.
 
-Definition check_ddl (l : list (Q * Q)) (A g psi mu eps tk : Q) : bool :=
+Definition check_ddl_tol (tol : Q) (l : list (Q * Q)) (A g psi mu eps tk : Q) : bool :=
   negb (Qeq_bool (A * g) 0) &&
-  check_rel_within_Q prec80 [sigmaQ l A g; psi; mu; eps; tk] (Var 0) gc_expr tol8.
+  check_rel_within_Q prec80 [sigmaQ l A g; psi; mu; eps; tk] (Var 0) gc_expr tol.
+Definition check_ddl := check_ddl_tol tol8.
+(* Donnan diffuse layer: calc_all_donnan takes the charge to be balanced from Gouy-Chapman at the surface potential and
+   finds the layer's potential by an inner iteration with its own stopping rule; the relation holds to ~1e-8 only, so the
+   correspondence applies it at 1e-6 (an extra relation; the property's explicit-layer clause is the charge balance) *)
+Definition tol6 : Q := 1 # 1000000.
+Definition check_ddl_loose := check_ddl_tol tol6.
+
+Theorem check_ddl_tol_sound : forall tol l A g psi mu eps tk, check_ddl_tol tol l A g psi mu eps tk = true ->
+  let gc := gouy_chapman (Q2R eps) (Q2R tk) (Q2R mu) (Q2R psi) in
+  (Rabs (sigma_of_species (to_R l) (Q2R A) (Q2R g) - gc) <= Q2R tol * Rabs gc)%R.
+Proof.
+  intros tol l A g psi mu eps tk H gc. unfold check_ddl_tol in H. apply andb_prop in H. destruct H as [Hn H].
+  apply negb_true_iff in Hn. apply check_rel_within_Q_sound in H.
+  rewrite gc_expr_correct in H.
+  replace (evalR (env_of_Q [sigmaQ l A g; psi; mu; eps; tk]) (Var 0)) with (Q2R (sigmaQ l A g)) in H by reflexivity.
+  rewrite (sigmaQ_R l A g Hn) in H. exact H.
+Qed.
 
 Theorem check_ddl_sound : forall l A g psi mu eps tk, check_ddl l A g psi mu eps tk = true ->
   let gc := gouy_chapman (Q2R eps) (Q2R tk) (Q2R mu) (Q2R psi) in
   (Rabs (sigma_of_species (to_R l) (Q2R A) (Q2R g) - gc) <= / 100000000 * Rabs gc)%R.
+Proof. intros l A g psi mu eps tk H gc. rewrite <- Q2R_tol8. exact (check_ddl_tol_sound tol8 l A g psi mu eps tk H). Qed.
+
+Theorem check_ddl_loose_sound : forall l A g psi mu eps tk, check_ddl_loose l A g psi mu eps tk = true ->
+  let gc := gouy_chapman (Q2R eps) (Q2R tk) (Q2R mu) (Q2R psi) in
+  (Rabs (sigma_of_species (to_R l) (Q2R A) (Q2R g) - gc) <= / 1000000 * Rabs gc)%R.
 Proof.
-  intros l A g psi mu eps tk H gc. unfold check_ddl in H. apply andb_prop in H. destruct H as [Hn H].
-  apply negb_true_iff in Hn. apply check_rel_within_Q_sound in H.
-  rewrite gc_expr_correct in H.
-  replace (evalR (env_of_Q [sigmaQ l A g; psi; mu; eps; tk]) (Var 0)) with (Q2R (sigmaQ l A g)) in H by reflexivity.
-  rewrite (sigmaQ_R l A g Hn), Q2R_tol8 in H. exact H.
+  intros l A g psi mu eps tk H gc. replace (/ 1000000)%R with (Q2R tol6) by (unfold tol6, Q2R; simpl; lra).
+  exact (check_ddl_tol_sound tol6 l A g psi mu eps tk H).
 Qed.
 
 (* --- linear charge-potential relations: CCM sigma = C psi; CD-MUSIC sigma0 = C1 (psi0 - psi1), sigma0 + sigma1 = C2 (psi1 - psi2) *)
